@@ -24,12 +24,11 @@ impl Bump {
 }
 impl SortUnstableV for MutexGuard<'_, Vec<u64>> {
     open spec fn seq_v(&self) -> Seq<u64> { self@@ }
-    #[verifier::external_body]
+    // the shim for a guarded list forwards to the list's (same assumed std contracts)
     fn sort_unstable_v(&mut self)
-        ensures final(self).of() == old(self).of(),      // sorting the guarded list does not re-seat the guard
-    { unimplemented!() }
-    #[verifier::external_body]
-    fn binary_search_v(&self, x: &u64) -> (r: core::result::Result<usize, usize>) { unimplemented!() }
+        ensures *final(final(self).inner) == *final(old(self).inner),      // the guard keeps guarding the same mutex
+    { self.inner.sort_unstable_v() }
+    fn binary_search_v(&self, x: &u64) -> (r: core::result::Result<usize, usize>) { self.inner.binary_search_v(x) }
 }
 
 spec fn new_tx_meta(bytes: Seq<u8>, ps: int, writable: bool) -> Meta {
